@@ -3,6 +3,7 @@ import Pms.Props.C01
 #print axioms Pms.Lammps.C01_roundtrip
 #print axioms Pms.Lammps.C01_frame_count
 #print axioms Pms.Lammps.C01_frame_consumed
+#print axioms Pms.Lammps.C01_fuel_adequate
 #print axioms Pms.Lammps.C01_per_id
 #print axioms Pms.Lammps.C01_order_irrelevant
 #print axioms Pms.Lammps.C01_wrap
